@@ -257,6 +257,13 @@ def check_components(case, rec):
             F_e = None
             if not nodeValues and touched:
                 F_e = element_mean_field(ctx, which)
+                if F_e is not None and T is not MISSING and F_e.shape[1] != T.shape[1]:
+                    if F_e.shape[1] == 6 and T.shape[1] == 3:
+                        F_e = F_e[:, [0, 1, 5]]  # a 2D result of a field the harness holds with its six components: [xx, yy, xy]
+                    else:
+                        rec.require(False, "result_shape", f"{ctx.kind} {ctx.types}: Result({tname!r}) has {T.shape[1]} components, the "
+                                    f"integration-point {which} field {F_e.shape[1]}", **mksig(ctx, base, tname, form, which))
+                        F_e = None
                 if F_e is not None:
                     width = width or F_e.shape[1]
                     if T is not MISSING:
